@@ -644,7 +644,7 @@ def tie(ctx):
         firstv.setdefault(v["signature"], v)
     return {"families": fam, "violations": list(firstv.values()), "evaluations": fam["world_unchanged"]["cases"] + stats["sibling_cases"] + stats["determinism_cases"] + stats["isolation_cases"],
             "distinct_nontrivial": len(distinct),
-            "rule": "random histories of 4-8 operations (stages, accessors, writers, query printing, coverage and gene accessors) with deep snapshots after every step; candidate sets of 2-4 major solutions over one or two structures refined alone / together / in every order; simulated two-gene samples genotyped repeatedly, interleaved, in a multi-gene run with a failing gene, and in fresh interpreters with PYTHONHASHSEED 0..3 (thorough 0..7); one three-copy sample asked for in 12 ways (profile BAM / exome / wxs / wgs / shipped profile name / user structure / parameters / output kinds / other build), each alone in a fresh interpreter vs inside random call sequences in one interpreter; distinct by hash of (gene, history)",
+            "rule": "random histories of 4-8 operations (stages, accessors, writers, query printing, coverage and gene accessors) with deep snapshots after every step; candidate sets incl. structures of equal copy number but different layout with a variant between their filter thresholds, compared alone / together / in every order; candidate sets of 2-4 major solutions over one or two structures refined alone / together / in every order; simulated two-gene samples genotyped repeatedly, interleaved, in a multi-gene run with a failing gene, and in fresh interpreters with PYTHONHASHSEED 0..3 (thorough 0..7); one three-copy sample asked for in 12 ways (profile BAM / exome / wxs / wgs / shipped profile name / user structure / parameters / output kinds / other build), each alone in a fresh interpreter vs inside random call sequences in one interpreter; distinct by hash of (gene, history)",
             "samples": samples, "stats": dict(stats)}
 
 
